@@ -562,6 +562,8 @@ func TestC02(t *testing.T) {
 		grpcReuseCase(r, "C02", false, same, 1000, 100)
 		grpcReuseCase(r, "C02", false, same, 10, 1)
 	}
+	// ... nor the remainder of a record of the first session that its blocked Read receives late
+	grpcReuseCase(r, "C02", true, false, 1000, 100)
 	rng := newRand(2)
 	// honest streams
 	for _, kk := range []bool{false, true} {
